@@ -83,7 +83,8 @@ ExactArguments ==
   /\ \A d \in AxisDirs : \A m \in Mods : \E g \in RegSet : IsNegZero(g) /\ g.dir = d /\ g.m = m
   /\ \E g \in RegSet : IsZeroReg(g)
   /\ \A g \in RegSet : IsNegZero(g) => \A f \in {"ln", "arg"} : RangeAt(f, g).loClosed /\ RangeAt(f, g).f = f
-  /\ \A g \in RegSet : ~IsNegZero(g) => \A f \in Funs : RangeAt(f, g) = RangeOf(f)
+  /\ \A g \in RegSet : (~IsNegZero(g) /\ ~IsZeroReg(g)) => \A f \in Funs : RangeAt(f, g) = RangeOf(f)
+  /\ {FunSeq[i] : i \in 1..Len(FunSeq)} = Funs /\ Len(FunSeq) = 38
 \* shape of the matrix
 MatrixShape ==
   /\ \A i \in 1..NRel : \E j \in 1..NReg : Applies(Rels[i], Regs[j])
@@ -105,7 +106,7 @@ ExactCasesSound ==
                                  IN /\ CEq(CMul(CPow(c.z, c.k), CPow(c.z, -c.k)), COne)
                                     /\ CEq(CPow(c.z, c.k + 1), CMul(c.z, CPow(c.z, c.k)))
   /\ Len(SqrtCases) = 48 /\ Len(PowCases) = 168
-Cursor == pos \in 1..NOblig /\ Oblig(pos).pos = pos /\ Oblig(pos).kind \in {"rel", "sqrt_exact", "powk"}
+Cursor == pos \in 1..NOblig /\ Oblig(pos).pos = pos /\ Oblig(pos).kind \in {"rel", "sqrt_exact", "powk", "soak"}
 
 \* spec -> implementation: every obligation once
 EmitCase == Emit => PrintT(<<"CASE", ToJson(Oblig(pos))>>)
